@@ -29,6 +29,10 @@
 
    Auxiliary: allocp_wul, allocp_apply_updates, allocp_apply_q, allocp_vector_try_from, allocp_list_serde_de,
    allocp_vector_serde_de, allocp_list_from_ssz, allocp_vector_from_ssz (Section AllocP: these programs only allocate);
+   serialize_inj_on (the encoding is injective on valid values), list_from_ssz_full, vector_from_ssz_full (strictness
+   AND completeness of the decoders: a handle holding an admissible preimage, or EDecode and no admissible preimage
+   exists below the 4-byte-offset limit) — the basis of refines_OSszList / refines_OSszVec against Spec's
+   strict-and-complete specification of decoding;
    liter_collect_strong, level_items_elems, level_items_blocks (Section LevelStrong: IterP's items_blocks does not say
    which constructor an item has; the replayed induction does); wp_try_ok (try_ of a program that cannot fail). *)
 From Coq Require Import FMapPositive.
@@ -410,9 +414,9 @@ Section SpecValid.
     - (* OFromElem *) eapply ctor_valid; [exact V| |exact S]. apply Forall_repeatN; exact Ho.
     - (* ODefaultVec *) eapply ctor_valid; [exact V| |exact S]. apply Forall_repeatN; exact Ho.
     - (* OSszList *) destruct (nregs <=? d)%nat; [eapply bad_valid; eauto|].
-      destruct S as [(l & _ & Fl & _ & _ & ->)|[_ ->]]; [apply vals_valid_aset; assumption|exact V].
+      destruct S as [[(l & _ & Fl & _ & _ & ->)|[_ ->]] _]; [apply vals_valid_aset; assumption|exact V].
     - (* OSszVec *) destruct (nregs <=? d)%nat; [eapply bad_valid; eauto|].
-      destruct S as [(l & _ & Fl & _ & _ & ->)|[_ ->]]; [apply vals_valid_aset; assumption|exact V].
+      destruct S as [[(l & _ & Fl & _ & _ & ->)|[_ ->]] _]; [apply vals_valid_aset; assumption|exact V].
     - (* OSerdeList *) eapply ctor_valid; [exact V| |exact S]. destruct (_ <=? _); [exact Ho|exact I].
     - (* OSerdeVec *) eapply ctor_valid; [exact V| |exact S]. destruct (_ =? _); [exact Ho|exact I].
     - (* OGet *) eapply with_reg_valid; [exact V| |exact S]. intros x E Fx [_ ->]. exact V.
@@ -742,6 +746,71 @@ Section RefineB.
       intros o st' (-> & GK' & _). cbn [RefineBase.hpost]. auto.
   Qed.
 
+  (* the encoding is injective on sequences of valid values (below the 4-byte-offset limit for variable-size kinds) *)
+  Lemma serialize_inj_on (l1 l2 : list T) : Forall valid l1 -> Forall valid l2 ->
+    (efixed ek = None -> lenN (serialize ek l1) < 2 ^ 32) -> serialize ek l1 = serialize ek l2 -> l1 = l2.
+  Proof.
+    intros V1 V2 H32 E. destruct (efixed ek) as [s0|] eqn:Es.
+    - exact (serialize_inj_fixed ek valid ECO s0 l1 l2 Es V1 V2 E).
+    - exact (serialize_inj_var ek valid ECO l1 l2 Es V1 V2 (H32 eq_refl) E).
+  Qed.
+
+  (* strictness and completeness of the decoders in one statement: a handle holding an admissible preimage, or
+     EDecode and then there is no admissible preimage (below the offset limit) *)
+  Definition ssz_admissible (inb : list T -> Prop) (b : bytes) : Prop :=
+    exists l, serialize ek l = b /\ Forall valid l /\ inb l /\ (efixed ek = None -> lenN b < 2 ^ 32).
+
+  Lemma list_from_ssz_full R (b : bytes) st (G : list tree) : valid_bytes b = true -> gok st G ->
+    wp R (list_from_ssz ek M capN b)
+       (fun o st' =>
+          match o with
+          | Ok h' => exists l, hclean h' l /\ hlist h' = true /\ serialize ek l = b /\ Forall valid l /\
+                               lenN l <= capN /\ gok st' (htree h' :: G)
+          | Err e => e = EDecode /\ gok st' G /\ ~ ssz_admissible (fun l => lenN l <= capN) b
+          | Panic _ => False
+          end) st.
+  Proof.
+    intros Hb GK.
+    destruct (list_from_ssz_strict ek M capN valid ECO b Hb) as [[-> E]|[E|(vs & Es & Hv & Hl & E)]]; rewrite E.
+    - eapply wp_mono; [|apply (list_empty_clean ek M H capN uinv UL CAP R st G GK)].
+      intros o st' (h' & -> & HC & Hk & GK' & _). exists []. rewrite serialize_nil.
+      repeat (split; [solve [auto]|]). split; [rewrite lenN_nil; lia|exact GK'].
+    - cbn [wp]. split; [reflexivity|]. split; [exact GK|].
+      intros (l & Es & Hv & Hl & H32).
+      assert (H32' : efixed ek = None -> lenN (serialize ek l) < 2 ^ 32) by (rewrite Es; exact H32).
+      pose proof (list_from_ssz_roundtrip ek M H capN uinv UL CAP valid ECO R (build_spec_R R) l st G Hv Hl H32' GK) as W.
+      rewrite Es, E in W. cbn [wp] in W. destruct W as (h' & W & _). discriminate W.
+    - eapply wp_mono; [|apply (build_or_ok ek M H capN uinv R (build_spec_R R) EDecode vs st G GK Hl)].
+      intros o st' (h' & -> & HC & Hk & GK' & _). exists vs. auto 8.
+  Qed.
+
+  Lemma vector_from_ssz_full R (b : bytes) st (G : list tree) : valid_bytes b = true -> gok st G ->
+    wp R (vector_from_ssz ek M capN b)
+       (fun o st' =>
+          match o with
+          | Ok v => exists l, hclean v l /\ hlist v = false /\ serialize ek l = b /\ Forall valid l /\
+                              lenN l = capN /\ gok st' (htree v :: G)
+          | Err e => e = EDecode /\ gok st' G /\ ~ ssz_admissible (fun l => lenN l = capN) b
+          | Panic _ => False
+          end) st.
+  Proof.
+    intros Hb GK. unfold vector_from_ssz. apply wp_bind.
+    eapply wp_mono; [|apply (list_from_ssz_full R b st G Hb GK)].
+    intros [h'|e|c] st' P; cbn [lift]; [| |contradiction].
+    - destruct P as (l & HC & Hk & Es & Hv & Hl & GK').
+      apply (vector_finish ek M capN uinv UL R EDecode h' l _ st' HC).
+      destruct (N.eqb_spec (lenN l) capN) as [El|El].
+      + destruct (as_vector_clean ek M capN uinv UL h' l HC El) as (HC' & Hk' & Et).
+        exists l. rewrite Et. auto 8.
+      + split; [reflexivity|]. split; [eapply gok_incl_o; [exact GK'|]; intros x Hx; right; exact Hx|].
+        intros (l2 & Es2 & Hv2 & Hl2 & H32). apply El.
+        assert (l2 = l) as <-; [|exact Hl2].
+        apply serialize_inj_on; [exact Hv2|exact Hv| |congruence].
+        rewrite Es2. exact H32.
+    - destruct P as (-> & GK' & Hno). cbn [wp]. split; [reflexivity|]. split; [exact GK'|].
+      intros (l & Es & Hv & Hl & H32). apply Hno. exists l. repeat (split; [assumption|]). split; [lia|exact H32].
+  Qed.
+
   Theorem refines_OSszList (st : state) (s : sys) (a : sregs) (d : nat) (b : bytes) :
     valid_bytes b = true -> SysInv st s a -> refines s a (OSszList d b) st.
   Proof.
@@ -750,12 +819,18 @@ Section RefineB.
     eapply wp_construct_K; [exact SI|apply allocp_noset, allocp_list_from_ssz| |].
     - intros E r a' Hbad. rewrite E. exact Hbad.
     - intros E. rewrite E.
-      eapply wp_mono; [|eapply list_from_ssz_strict_spec; [exact UL|exact CAP|exact ECO|apply build_spec_R|exact Hb|exact GK]].
-      intros [h'|e|c] st' [_ P]; cbn [RefineBase.hpost]; [| |contradiction].
+      eapply wp_mono; [|apply (list_from_ssz_full Rexact b st _ Hb GK)].
+      intros [h'|e|c] st' P; cbn [RefineBase.hpost]; [| |contradiction].
       + destruct P as (l & HC & Hk & Es & Hv & Hl & GK').
-        exists l. split; [apply HC|]. split; [exact GK'|]. left. exists l.
-        rewrite (abs_clean_list ek M capN uinv UL h' l HC Hk). auto 6.
-      + destruct P as [-> GK']. split; [exact GK'|]. right. auto.
+        exists l. split; [apply HC|]. split; [exact GK'|].
+        rewrite (abs_clean_list ek M capN uinv UL h' l HC Hk). split.
+        * left. exists l. auto 6.
+        * intros H32 l2 Es2 Hv2 Hl2. split; [reflexivity|].
+          assert (l2 = l) as ->; [|reflexivity].
+          apply serialize_inj_on; [exact Hv2|exact Hv| |congruence].
+          rewrite Es2. exact H32.
+      + destruct P as (-> & GK' & Hno). split; [exact GK'|]. split; [right; auto|].
+        intros H32 l Es Hv Hl. exfalso. apply Hno. exists l. auto.
   Qed.
 
   Theorem refines_OSszVec (st : state) (s : sys) (a : sregs) (d : nat) (b : bytes) :
@@ -766,12 +841,18 @@ Section RefineB.
     eapply wp_construct_K; [exact SI|apply allocp_noset, allocp_vector_from_ssz| |].
     - intros E r a' Hbad. rewrite E. exact Hbad.
     - intros E. rewrite E.
-      eapply wp_mono; [|eapply vector_from_ssz_strict_spec; [exact UL|exact CAP|exact ECO|apply build_spec_R|exact Hb|exact GK]].
-      intros [h'|e|c] st' [_ P]; cbn [RefineBase.hpost]; [| |contradiction].
+      eapply wp_mono; [|apply (vector_from_ssz_full Rexact b st _ Hb GK)].
+      intros [h'|e|c] st' P; cbn [RefineBase.hpost]; [| |contradiction].
       + destruct P as (l & HC & Hk & Es & Hv & Hl & GK').
-        exists l. split; [apply HC|]. split; [exact GK'|]. left. exists l.
-        rewrite (abs_clean_vec ek M capN uinv h' l HC Hk). auto 6.
-      + destruct P as [-> GK']. split; [exact GK'|]. right. auto.
+        exists l. split; [apply HC|]. split; [exact GK'|].
+        rewrite (abs_clean_vec ek M capN uinv h' l HC Hk). split.
+        * left. exists l. auto 6.
+        * intros H32 l2 Es2 Hv2 Hl2. split; [reflexivity|].
+          assert (l2 = l) as ->; [|reflexivity].
+          apply serialize_inj_on; [exact Hv2|exact Hv| |congruence].
+          rewrite Es2. exact H32.
+      + destruct P as (-> & GK' & Hno). split; [exact GK'|]. split; [right; auto|].
+        intros H32 l Es Hv Hl. exfalso. apply Hno. exists l. auto.
   Qed.
 
   (* ====================================================================== *)
@@ -952,6 +1033,9 @@ End RefineB.
 Print Assumptions refines_OLevelIter.
 Print Assumptions refines_OSerdeList.
 Print Assumptions refines_OSerdeVec.
+Print Assumptions serialize_inj_on.
+Print Assumptions list_from_ssz_full.
+Print Assumptions vector_from_ssz_full.
 Print Assumptions refines_OSszList.
 Print Assumptions refines_OSszVec.
 Print Assumptions refines_ORebaseOn.
